@@ -548,6 +548,12 @@ class SingleWindowSplitter(BaseSplitter):
         fh = _check_fh(self.fh)
 
         end = _get_end(y, fh) - 1
+        if window_length is not None and window_length > end:
+            raise ValueError(
+                f"The `window_length` and the forecasting horizon are incompatible "
+                f"with the length of `y`. Found `window_length`={window_length}, "
+                f"`max(fh)`={fh[-1]}, but len(y)={y.shape[0]}."
+            )
         start = 0 if window_length is None else end - window_length
         train = np.arange(start, end)
         test = end + fh.to_numpy() - 1
